@@ -142,6 +142,12 @@ def run_cases(cases):
             sz = sz[rot % len(sz):] + sz[:rot % len(sz)]
             model = build(src, shape, sz, [0, rot])
             flt = FILTERS[fname]
+            if len(case) > 6 and case[6] == "over-longer":
+                # the destination already exists from an earlier transfer whose files were LONGER and different
+                keep = CONTENT_KIND[0]
+                CONTENT_KIND[0] = "pattern"
+                build(dst, shape, [s_ + 41 for s_ in sz], [3, rot])
+                CONTENT_KIND[0] = keep
             try:
                 if direction == "upload":
                     classic.upload(conn, src, dst, filter=flt, chunk_size=chunk)
@@ -206,6 +212,9 @@ def all_cases(tier):
             if kind != "pattern" and tier == "quick" and c[1] != "F" and hash((c[1], c[2])) % 3:
                 continue
             out.append(c + (kind,))
+            # transfers onto an existing destination (a second upload / download of a tree whose files shrank)
+            if c[3] == "none" and kind in ("pattern", "zeros") and (tier == "thorough" or c[1] == "F" or shapes.index(c[1]) % 3 == 0):
+                out.append(c + (kind, "over-longer"))
     return out
 
 
